@@ -324,6 +324,34 @@ func genC13Purge(g *Gen) error {
 	}
 	g.StrList("steps_engineDropSeries", es)
 
+	// ---- every index of a policy subtracts the policy's deleted tsids --------------------------------
+	nm, err := g.Func("engine/partition.go", "DBPTInfo.NewMergeSetIndex")
+	if err != nil {
+		return err
+	}
+	attaches := false
+	ast.Inspect(nm.Body, func(n ast.Node) bool {
+		// in the branch that registers an ordinary index: if the policy has a deleted-tsid index, SetDeleteMergeSet
+		if is, ok := n.(*ast.IfStmt); ok && strings.Contains(g.Src(is.Cond), "GetIndexID() == DelIndexBuilderId") {
+			if els, ok := is.Else.(*ast.BlockStmt); ok {
+				src := g.Src(els)
+				attaches = strings.Contains(src, "dbPT.delIndexBuilderMap[rp]") && strings.Contains(src, ".SetDeleteMergeSet(")
+			}
+		}
+		return true
+	})
+	boolDef("newIndexGetsDeletedSet", attaches, "an index created while the policy's deleted-tsid index is open is given it (NewMergeSetIndex)")
+	gd, err := g.Func("engine/index/tsi/mergeset_index.go", "MergeSetIndex.GetDeletedTSIDs")
+	if err != nil {
+		return err
+	}
+	g.P("def src_getDeletedTSIDs : String := %s", leanStr(g.Src(gd.Body)))
+	sd, _, err := stmts("engine/partition.go", "SetDelMergeSetForEachMergeSet")
+	if err != nil {
+		return err
+	}
+	_ = sd // already emitted as steps_setDelMergeSet by the first group
+
 	// ---- the store side of the drops (engine/engine_ddl.go, engine/engine.go) ---------------------
 	for _, f := range [][3]string{
 		{"engine/engine_ddl.go", "EngineImpl.DropRetentionPolicy", "steps_engineDropRetentionPolicy"},
